@@ -1,7 +1,7 @@
 package main
 
 import (
-	"context"
+	"crypto/tls"
 	"encoding/json"
 	"errors"
 	"flag"
@@ -12,8 +12,8 @@ import (
 	"sync"
 	"time"
 
-	"github.com/caddyserver/caddy/v2"
 	"github.com/mholt/caddy-l4/layer4"
+	_ "github.com/mholt/caddy-l4/modules/l4tls"
 
 	"verifharness/vh"
 )
@@ -41,6 +41,10 @@ func lnRoutes() []map[string]any {
 		return map[string]any{"verif_m0": map[string]any{"at": at, "v": v, "w": v, "kind": kind}}
 	}
 	return []map[string]any{
+		// TLS is terminated by the real tls handler (non-terminal); the following routes see the plaintext
+		{"match": []map[string]any{{"tls": map[string]any{}}}, "handle": []map[string]any{{"handler": "tls"}}},
+		// looks at 8 plaintext bytes of TLS-terminated fall-through connections and says no
+		{"match": []map[string]any{vhm(8, "N", "tlsfall")}, "handle": []map[string]any{{"handler": "verif_h", "k": "term"}}},
 		// looks at 8 bytes of fall-through connections and says no: their bytes get prefetched
 		{"match": []map[string]any{vhm(8, "N", "fall")}, "handle": []map[string]any{{"handler": "verif_h", "k": "term"}}},
 		// consumed by a terminal handler
@@ -54,9 +58,11 @@ func lnRoutes() []map[string]any {
 
 func runListener(sc lnScen, idx int, seed int64) (*lnTrace, error) {
 	shared := vh.NewRecorder(nil)
+	ctx, err := vh.CaddyContext()
+	if err != nil {
+		return nil, err
+	}
 	base := runtime.NumGoroutine()
-	ctx, cancel := caddy.NewContext(caddy.Context{Context: context.Background()})
-	defer cancel()
 	cfg, _ := json.Marshal(map[string]any{"routes": lnRoutes(), "matching_timeout": int64(5 * time.Second)})
 	lw := new(layer4.ListenerWrapper)
 	if err := json.Unmarshal(cfg, lw); err != nil {
@@ -71,41 +77,87 @@ func runListener(sc lnScen, idx int, seed int64) (*lnTrace, error) {
 	ln := lw.WrapListener(fl)
 
 	type connInfo struct {
-		rec  *vh.Recorder
-		conn *vh.ScriptConn
-		kind string
+		rec    *vh.Recorder
+		conn   net.Conn // what the inner listener hands out
+		kind   string
+		slen   int
+		client func() // TLS client side, run once the connection was offered
 	}
 	conns := map[string]*connInfo{}
 	var order []string
+	var tcpLn net.Listener
 	for i, kind := range sc.Mix {
 		id := fmt.Sprintf("k%d", i+1)
 		slen := sc.Slen
-		if (kind == "term" || kind == "eatfall") && slen < 16 {
+		if (kind == "term" || kind == "eatfall" || kind == "tlsfall") && slen < 16 {
 			slen = 16
 		}
 		rec := vh.NewRecorder(vh.MakeStream(seed*1000+int64(idx*16+i), slen+64))
 		rec.Kind, rec.ID, rec.Sink = kind, id, shared
+		if kind == "tlsfall" {
+			if tcpLn == nil {
+				if tcpLn, err = net.Listen("tcp", "127.0.0.1:0"); err != nil {
+					return nil, err
+				}
+				defer tcpLn.Close()
+			}
+			cc, err := net.Dial("tcp", tcpLn.Addr().String())
+			if err != nil {
+				return nil, err
+			}
+			sconn, err := tcpLn.Accept()
+			if err != nil {
+				return nil, err
+			}
+			addr := sconn.RemoteAddr().String()
+			vh.RegisterRec(addr, rec)
+			defer vh.UnregisterRec(addr)
+			stream := rec.Stream[:slen]
+			ci := &connInfo{rec: rec, conn: &closeObs{Conn: sconn, rec: rec}, kind: kind, slen: slen}
+			ci.client = func() {
+				tc := tls.Client(cc, &tls.Config{ServerName: "verif.test", InsecureSkipVerify: true})
+				tc.SetDeadline(time.Now().Add(5 * time.Second))
+				if err := tc.Handshake(); err != nil {
+					shared.Add(vh.Ev{"e": "ClientErr", "c": id, "msg": err.Error()})
+					cc.Close()
+					return
+				}
+				tc.Write(stream)
+				tc.CloseWrite()
+				io.Copy(io.Discard, tc)
+				cc.Close()
+			}
+			conns[addr] = ci
+			order = append(order, addr)
+			continue
+		}
 		addr := &net.TCPAddr{IP: net.IPv4(10, 1, byte(idx%250), byte(i+1)), Port: 20000 + i}
 		pulls := []int{}
 		if i%2 == 1 {
 			pulls = []int{3, 1, 2048, 7}
 		}
-		sc := &vh.ScriptConn{Rec: rec, Slen: slen, EndKind: "eof", Pulls: pulls, Start: time.Now(), Unit: time.Hour, Remote: addr}
+		scn := &vh.ScriptConn{Rec: rec, Slen: slen, EndKind: "eof", Pulls: pulls, Start: time.Now(), Unit: time.Hour, Remote: addr}
 		vh.RegisterRec(addr.String(), rec)
 		defer vh.UnregisterRec(addr.String())
-		conns[addr.String()] = &connInfo{rec, sc, kind}
+		conns[addr.String()] = &connInfo{rec: rec, conn: scn, kind: kind, slen: slen}
 		order = append(order, addr.String())
 	}
 	fl.OnAccept = func(c net.Conn) {
 		ci := conns[c.RemoteAddr().String()]
-		from, k := 0, ci.kind
+		from, k, isTLS := 0, ci.kind, false
 		if k == "eatfall" {
 			from, k = eatN, "fall"
 		}
-		if k == "fall" && ci.conn.Slen < 8 {
+		if k == "tlsfall" {
+			k, isTLS = "fall", true
+		}
+		if k == "fall" && ci.slen < 8 {
 			k = "rej" // the stream ends before the 8 bytes the first route asks for: matching fails
 		}
-		shared.Add(vh.Ev{"e": "Offer", "c": ci.rec.ID, "kind": k, "slen": ci.conn.Slen, "from": from})
+		shared.Add(vh.Ev{"e": "Offer", "c": ci.rec.ID, "kind": k, "slen": ci.slen, "from": from, "tls": isTLS})
+		if ci.client != nil {
+			go ci.client()
+		}
 	}
 
 	// consumer
@@ -153,7 +205,11 @@ func runListener(sc lnScen, idx int, seed int64) (*lnTrace, error) {
 				if segs == nil {
 					segs = vh.Segs{}
 				}
-				shared.Add(vh.Ev{"e": "CRead", "c": ci.rec.ID, "segs": segs})
+				hasState := false
+				if cs, ok := c.(interface{ ConnectionState() tls.ConnectionState }); ok {
+					hasState = cs.ConnectionState().HandshakeComplete
+				}
+				shared.Add(vh.Ev{"e": "CRead", "c": ci.rec.ID, "segs": segs, "tls": hasState})
 				shared.Add(vh.Ev{"e": "CClose", "c": ci.rec.ID})
 				c.Close()
 			}(c, ci)
@@ -189,9 +245,14 @@ func runListener(sc lnScen, idx int, seed int64) (*lnTrace, error) {
 		settle(1000)
 		cwg.Wait()
 	}
+	if sc.Close == "early" {
+		// the connections have been accepted and routed; those falling through wait in (or for) the hand-over channel
+		settle(300)
+	}
 	shared.Add(vh.Ev{"e": "LnClose"})
 	ln.Close()
 	if sc.Close == "early" {
+		settle(200)
 		if sc.Consumer == "absent" {
 			close(startAccept)
 		}
@@ -222,7 +283,7 @@ func runListener(sc lnScen, idx int, seed int64) (*lnTrace, error) {
 		switch e["e"] {
 		case "Offer":
 			offered[e["c"].(string)] = true
-		case "Pull", "Sock", "Dl", "Handle", "HRead", "HPull", "Fallback":
+		case "Pull", "Sock", "Dl", "Handle", "HRead", "HPull", "Fallback", "Term":
 			continue
 		}
 		hist = append(hist, e)
@@ -276,4 +337,20 @@ func init() {
 		}
 		return writeJSON(*sum, map[string]any{"runs": len(scens), "delivered": delivered, "samples": samples})
 	})
+}
+
+// closeObs records Close on a real connection handed to the wrapper.
+type closeObs struct {
+	net.Conn
+	rec  *vh.Recorder
+	once sync.Once
+}
+
+func (c *closeObs) Close() error {
+	c.once.Do(func() {
+		if c.rec.Sink != nil {
+			c.rec.Sink.Add(vh.Ev{"e": "ConnClosed", "c": c.rec.ID})
+		}
+	})
+	return c.Conn.Close()
 }
